@@ -606,6 +606,16 @@ func TestReplay(t *testing.T) {
 	if p == "" {
 		t.Skip()
 	}
+	var dc struct {
+		Deep *deepCase `json:"deep"`
+	}
+	if _, err := evid.LoadReplay(p, &dc); err == nil && dc.Deep != nil {
+		if msg, _ := runDeep(dc.Deep); msg != "" {
+			evid.Violation("replay", &dc, "%s", msg)
+			t.Fatal(msg)
+		}
+		return
+	}
 	var c Case
 	if _, err := evid.LoadReplay(p, &c); err != nil {
 		t.Fatal(err)
